@@ -43,6 +43,13 @@ var (
 	ErrClosed   = errors.New("ghost: file already closed")
 )
 
+// Armed makes every following mutation step a possible last one: at each step the executor forks on
+// "the process dies right after this step" (so the number of crash points equals the number of steps).
+var Armed bool
+
+// TornAll: a write at the crash step may end at every byte offset (otherwise: all of it or none of it).
+var TornAll bool
+
 // step returns true if the mutation takes effect.
 func step(what string) bool {
 	if Crashed {
@@ -53,12 +60,18 @@ func step(what string) bool {
 	if CrashAt > 0 && Steps >= CrashAt {
 		Crashed = true
 	}
+	if Armed && !Crashed && rt.IntRange("dieAfterStep", 0, 1) == 1 {
+		Crashed = true
+		Armed = false
+	}
 	return true
 }
 
 // Reboot models the next process start on the surviving directory.
 func Reboot() {
 	Crashed = false
+	Armed = false
+	TornAll = false
 	CrashAt = 0
 	handles = map[*os.File]*handle{}
 }
@@ -239,7 +252,11 @@ func FileWrite(f *os.File, b []byte) (int, error) {
 	n := len(b)
 	if Crashed {
 		// the dying process may have got only a prefix of this write out
-		n = rt.IntRange("torn", 0, len(b))
+		if TornAll {
+			n = rt.IntRange("torn", 0, len(b))
+		} else if rt.IntRange("tornNone", 0, 1) == 1 {
+			n = 0
+		}
 	}
 	if h.app {
 		h.off = len(h.file.Data)
